@@ -422,6 +422,7 @@ type deferred struct {
 }
 
 type run struct {
+	notes     int // sample notes written so far (trace mode)
 	late      []deferred
 	inLate    bool
 	t         *tape.Tape
